@@ -423,3 +423,8 @@ UNITS.append(apply_appends_unit("C06"))
 
 from contracts.share import carried as _carried  # noqa: E402
 UNITS += _carried("C06")
+
+# a group-level default gives the declared members a value; it never makes a required member optional (check_required is the only place where a
+# required key set to null is refused)
+from contracts.signature_units import add_class_arguments_unit as _aca_unit  # noqa: E402
+UNITS.append(_aca_unit("C06"))
